@@ -55,6 +55,10 @@ type listCase struct {
 	nontriv int64
 	fired   int64
 	known   int64
+	ctx     *gtab.Context
+
+	correlated bool
+	nesting    bool
 }
 
 const knownGsub8 = "gsub8-forward-order"
@@ -85,8 +89,12 @@ func (c *listCase) compare(gids []glyph.ID) error {
 	}
 	var got []glyph.Info
 	pn := guard.Try(func() {
-		ctx := gtab.NewContext(c.res.List, c.env.Gdef, c.order)
-		got = ctx.Apply(in)
+		// one Context serves all sequences of a lookup list (Contexts are
+		// documented as reusable); every result must still equal the model
+		if c.ctx == nil {
+			c.ctx = gtab.NewContext(c.res.List, c.env.Gdef, c.order)
+		}
+		got = append([]glyph.Info(nil), c.ctx.Apply(in)...)
 	})
 	if pn != nil {
 		return fmt.Errorf("Apply panicked on %v: %s", gids, pn)
@@ -120,7 +128,37 @@ func genListCase(t *rapid.T) *listCase {
 		allow = gposAllow
 		c.gpos = true
 	}
-	c.res = lookups.GenLookups(c.env, lookups.Options{Kind: c.kind, Mode: lookups.Defined, MinLookups: 1, MaxLookups: 6, Allow: allow}).Draw(t, "lookups")
+	minLookups := 1
+	if !c.gpos && rapid.IntRange(0, 2).Draw(t, "nestingProfile") == 0 {
+		// dense nesting: only contexts and the length-changing types, so that
+		// contexts calling contexts calling expansions/ligatures are common
+		allow = []lookups.Format{21, 41, 51, 52, 53, 61, 62, 63}
+		minLookups = 3
+		c.nesting = true
+	}
+	c.res = lookups.GenLookups(c.env, lookups.Options{Kind: c.kind, Mode: lookups.Defined, MinLookups: minLookups, MaxLookups: 6, Allow: allow}).Draw(t, "lookups")
+	if rapid.IntRange(0, 1).Draw(t, "correlateFlags") == 0 && len(c.res.List) >= 2 {
+		// several lookups with bit-identical flag words but different mark
+		// filtering sets (nested lookups must not inherit the parent's filter)
+		src := c.res.List[rapid.IntRange(0, len(c.res.List)-1).Draw(t, "flagSrc")].Meta
+		fl := src.LookupFlags
+		nsets := len(c.env.Gdef.MarkGlyphSets)
+		if nsets >= 2 && rapid.Bool().Draw(t, "forceMarkSet") {
+			fl = fl&^(gtab.IgnoreMarks) | gtab.UseMarkFilteringSet
+		}
+		for _, l := range c.res.List {
+			if t := l.Meta.LookupType; c.kind == gtab.TypeGpos && (t == 4 || t == 6) {
+				continue
+			}
+			if rapid.Bool().Draw(t, "copyFlags") {
+				l.Meta = &gtab.LookupMetaInfo{LookupType: l.Meta.LookupType, LookupFlags: fl, MarkFilteringSet: l.Meta.MarkFilteringSet}
+				if fl&gtab.UseMarkFilteringSet != 0 && nsets > 0 {
+					l.Meta.MarkFilteringSet = uint16(rapid.IntRange(0, nsets-1).Draw(t, "markSet"))
+				}
+			}
+		}
+		c.correlated = true
+	}
 	n := len(c.res.List)
 	idx := make([]int, n)
 	for i := range idx {
@@ -147,6 +185,29 @@ func TestC06Shaping(t *testing.T) {
 		k := rapid.IntRange(3, 4).Draw(t, "alphabetSize")
 		sub := make([]glyph.ID, 0, k)
 		perm := rapid.Permutation(append([]glyph.ID(nil), c.env.Alphabet...)).Draw(t, "alphaPerm")
+		if c.correlated {
+			// prefer glyphs that the mark filtering sets treat differently
+			var disc []glyph.ID
+			for _, g := range c.env.Alphabet {
+				in := 0
+				for _, set := range c.env.Gdef.MarkGlyphSets {
+					if set[g] {
+						in++
+					}
+				}
+				if c.env.Gdef.GlyphClass[g] == gdef.GlyphClassMark && in > 0 && in < len(c.env.Gdef.MarkGlyphSets) {
+					disc = append(disc, g)
+				}
+			}
+			if len(disc) > 0 {
+				d := rapid.SampledFrom(disc).Draw(t, "discMark")
+				for i, g := range perm {
+					if g == d {
+						perm[0], perm[i] = perm[i], perm[0]
+					}
+				}
+			}
+		}
 		sub = append(sub, perm[:k]...)
 		maxLen := 6
 		if k == 4 {
@@ -187,6 +248,12 @@ func TestC06Shaping(t *testing.T) {
 		stats.LabelN("shaping", "applications-nontrivial", c.nontriv)
 		stats.LabelN("shaping", "applications-known-gsub8-order", c.known)
 		labels := append([]string{fmt.Sprintf("kind-%v", c.kind)}, c.res.Classes...)
+		if c.correlated {
+			labels = append(labels, "flags-correlated")
+		}
+		if c.nesting {
+			labels = append(labels, "profile-dense-nesting")
+		}
 		stats.CaseIn("shaping", stats.Hash(c.String(), fmt.Sprint(sub)), c.nontriv > 0, func() string { return c.String() }, labels...)
 	})
 }
